@@ -197,6 +197,10 @@ def check(chk, repo):
                    "" if ok else f"the wrapper keeps state between calls ({'captures ' + ', '.join(captured) if captured else 'nonlocal/global or function attribute'}): "
                    "a result can depend on earlier calls (e.g. the same array object refilled in place)")
     chk.note("decorator_closures_checked", n_clos)
+    # (iv-b) every node starts from its own fresh state: defaults set per object, no container shared through a default
+    from ..rules_premise import check_mutable_defaults, check_node_defaults
+    check_node_defaults(rep, repo, "FRESH-")
+    check_mutable_defaults(rep, repo, "FRESH-")
     # (v) fit / predict do not change the model's configuration, and fit rebuilds its graph from its arguments
     from ..common import check_fresh_graph, competitions_of, model_walk
     from ..ir import Walker
